@@ -197,7 +197,7 @@ func newTwinCache(sc *Scenario, bo BuildOpt) *twinCache {
 }
 
 func reqKey(rq *Req) string {
-	k := rq.Method + " " + rq.Path
+	k := rq.Kind + " " + rq.Method + " " + rq.Path
 	for _, f := range rq.WFaults {
 		k += fmt.Sprintf("|%d:%d:%s", f.At, f.N, f.Err)
 	}
